@@ -3,10 +3,12 @@ package main
 import (
 	"fmt"
 	"math/rand"
+	"net/netip"
 	"sort"
 	"strings"
 
 	zed "github.com/brimdata/super"
+	"github.com/brimdata/super/pkg/nano"
 	"github.com/brimdata/super/zcode"
 )
 
@@ -210,6 +212,23 @@ func (g *gen) value(b *zcode.Builder, typ zed.Type, path string, nullable bool) 
 			g.leaf(path, typ, v)
 		case zed.TypeFloat64:
 			v := zed.EncodeFloat64(float64(g.next()) + 0.5)
+			b.Append(v)
+			g.leaf(path, typ, v)
+		case zed.TypeBool:
+			v := zed.EncodeBool(g.next()%2 == 0)
+			b.Append(v)
+			g.leaf(path, typ, v)
+		case zed.TypeUint8:
+			v := zed.EncodeUint(uint64(g.next() % 256))
+			b.Append(v)
+			g.leaf(path, typ, v)
+		case zed.TypeTime:
+			v := zed.EncodeTime(nano.Ts(1700000000000000000 + int64(g.next())))
+			b.Append(v)
+			g.leaf(path, typ, v)
+		case zed.TypeIP:
+			n := g.next()
+			v := zed.EncodeIP(netip.AddrFrom4([4]byte{10, byte(n >> 16), byte(n >> 8), byte(n)}))
 			b.Append(v)
 			g.leaf(path, typ, v)
 		default:
